@@ -218,13 +218,22 @@ def run_queries(rec, F, cnt, sig):
         t.setDrivingForceMethod(rec['method'])
     ordered = db == 'nicral'
     prev_T, prev_x = None, None
+    FAM = {'df': ('df',), 'curv': ('curv',), 'growth': ('df', 'curv'), 'imp': ('df', 'curv'), 'interdiff': ('diff',), 'tracer': ('diff',), 'ic': ()}
+    cache = {'df': False, 'curv': False, 'diff': False}     # per cache family: does the warm object hold composition sets from an earlier call?
+    # (removeCache=True drops a family's sets only AFTER the call that passes it)
     for k, op in enumerate(rec['ops']):
         q = op['q']
         if q == 'clearCache':
             warm.clearCache()
+            if hasattr(warm, '_compset_cache_curvature'):
+                warm._compset_cache_curvature = {}
+            cache = {'df': False, 'curv': False, 'diff': False}
             cnt['fault_cache_drop'] += 1
             sig.add('drop')
             continue
+        had_cache = any(cache[f] for f in FAM[q])
+        for f in FAM[q]:
+            cache[f] = not op.get('rc', False)
         opq = dict(op)
         if op.get('batch') and q == 'df':
             # batched call: this point together with two others; element 0 must equal the single call
@@ -268,7 +277,7 @@ def run_queries(rec, F, cnt, sig):
             dg_b = np.atleast_1d(np.asarray(res_w[0], dtype=float))[0]
             comp_b = np.atleast_2d(np.asarray(res_w[1], dtype=float))[0] if db == 'nicral' else np.atleast_1d(np.asarray(res_w[1], dtype=float))[0]
             fw = np.concatenate(([dg_b], np.ravel(comp_b)))
-        ctx = dict(query=q, method=rec['method'] if q in ('df', 'growth', 'imp') else 'n/a', ordered=bool(ordered), cache_kept=not op.get('rc', False), large_jump=bool(big_jump), batch=bool(op.get('batch', False)))
+        ctx = dict(query=q, method=rec['method'] if q in ('df', 'growth', 'imp') else 'n/a', ordered=bool(ordered), warm_start=bool(had_cache), large_jump=bool(big_jump), batch=bool(op.get('batch', False)))
         if not agree(fw, ff, energy_like):
             dmax = None if fw is None or ff is None or fw.shape != ff.shape else float(np.max(np.abs(fw - ff)))
             ctx['small_offset'] = bool(dmax is not None and q == 'df' and dmax <= 2.0 * float(getattr(warm, 'gOffset', 1.0)) + 1e-6)
@@ -279,7 +288,9 @@ def run_queries(rec, F, cnt, sig):
             f2 = flat(res_w2) if not isinstance(res_w2, str) else None
             f1 = flat(res_w)
             if not isinstance(res_w2, str) and not agree(f1, f2, energy_like):
-                F.add('C09.repeat', f'query {k} ({q}, method {rec["method"]}): repeating the call immediately gives {None if f2 is None else f2.tolist()[:6]} instead of {None if f1 is None else f1.tolist()[:6]}', **{kk: vv for kk, vv in ctx.items() if kk != 'small_offset'})
+                rctx = {kk: vv for kk, vv in ctx.items() if kk != 'small_offset'}
+                rctx['warm_start'] = bool(had_cache or not op.get('rc', False))      # at least one of the two calls started from cached sets
+                F.add('C09.repeat', f'query {k} ({q}, method {rec["method"]}): repeating the call immediately gives {None if f2 is None else f2.tolist()[:6]} instead of {None if f1 is None else f1.tolist()[:6]}', **rctx)
     return
 
 
